@@ -729,8 +729,11 @@ def render_item(item, k, paths):
         if post in POSTS:
             post_src, post_el = POSTS[post]
         elif post == 'cont':
-            post_src = ' \\'
-            extra_lines = ['   c1 \\', "\t'c 2'"]
+            # the continuation marker is separated from the element before it by one blank, several blanks or a tab,
+            # and may be followed by blanks before the line ends
+            post_src, l2 = [(' \\', '   c1 \\'), ('  \\', 'c1\t\\'), ('\t\\', '   c1    \\'), (' \\ ', ' c1 \t \\  '),
+                            ('   \\', 'c1 \\')][v % 5]
+            extra_lines = [l2, "\t'c 2'"]
             post_el = ['c1', 'c 2']
         elif post == 'paren':
             post_src = ' '
